@@ -1,7 +1,7 @@
 """C07 — MACs equal ISO 9797-1 algorithm 1 (CBC-MAC) and algorithm 3 (retail MAC)."""
 from core import Case, enc_b, enc_i, psec
 
-OBLIGATIONS = []
+OBLIGATIONS = ["Psec.Props.C07.cbcMac_des_eq_mac1", "Psec.Props.C07.cbcMac_aes_eq_mac1", "Psec.Props.C07.cbcMac_default_length", "Psec.Props.C07.mac1_truncation", "Psec.Props.C07.mac3_truncation", "Psec.Props.C07.retailMac_eq_mac3", "Psec.Props.C07.retail_single_block", "Psec.Props.C07.mac_bad_padding"]
 TRUSTED_BASE = ["Lean 4.33 kernel", "library model of CBC update() incl. a second update on the open encryptor (Cipher/Iface.lean)",
                 "Spec/ISO9797.lean is my reading of ISO/IEC 9797-1", "correspondence harness and compiled driver"]
 RULE = ("key sizes 8/16/24 and 16/24/32 (plus invalid) x message lengths 0..5 blocks at every residue x padding 1,2,3 (plus invalid selectors) "
